@@ -54,6 +54,10 @@ func init() {
 		"strconv.ParseInt":    extParseInt,
 		"strconv.ParseFloat":  extParseFloat,
 		"strconv.Quote":       extQuote,
+		"strconv.AppendInt":   extAppendInt,
+		"strconv.AppendFloat": extAppendFloat,
+		"strconv.AppendQuote": extAppendQuote,
+		"strconv.AppendBool":  extAppendBool,
 
 		"strings.Join":          extStringsJoin,
 		"strings.Repeat":        extStringsRepeat,
@@ -151,6 +155,16 @@ func init() {
 		"(*sync.RWMutex).RLock":   extMutexLock,
 		"(*sync.RWMutex).RUnlock": extMutexUnlock,
 
+		"(*sync.Map).Load":                  extSyncMapLoad,
+		"(*sync.Map).Store":                 extSyncMapStore,
+		"(*sync.Map).LoadOrStore":           extSyncMapLoadOrStore,
+		"(*sync.Map).LoadAndDelete":         extSyncMapLoadAndDelete,
+		"(*sync.Map).Delete":                extSyncMapDelete,
+		"(*sync.Map).Swap":                  extSyncMapSwap,
+		"(*sync.Map).CompareAndSwap":        extSyncMapCompareAndSwap,
+		"(*sync.Map).CompareAndDelete":      extSyncMapCompareAndDelete,
+		"(*sync.Map).Range":                 extSyncMapRange,
+		"(*sync.Map).Clear":                 extSyncMapClear,
 		"(*sync.Pool).Get":                  extPoolGet,
 		"(*sync.Pool).Put":                  extPoolPut,
 		"(*sync/atomic.Value).Load":         extAtomicValueLoad,
@@ -500,6 +514,57 @@ func extFormatInt(fr *frame, args []value) value {
 		return mkRope([]ropePart{{kind: rkNum, num: s.t}})
 	}
 	return strconv.FormatInt(args[0].(int64), base)
+}
+
+// bytesAsStr is the string content of a []byte value (concrete, symbolic
+// bytes, or a rope-backed buffer).
+func bytesAsStr(fr *frame, v value) value {
+	switch b := v.(type) {
+	case nil:
+		return ""
+	case ropeBytes:
+		return b.r
+	case []value:
+		conc := make([]byte, 0, len(b))
+		for _, x := range b {
+			c, ok := x.(uint8)
+			if !ok {
+				return ropeFromBytes(fr, b)
+			}
+			conc = append(conc, c)
+		}
+		return string(conc)
+	}
+	fr.i.px.abort("unsupported", "byte buffer of kind %T", v)
+	return nil
+}
+
+// strconv.AppendX(dst, ...) = dst + FormatX(...) on rope-backed buffers, so
+// that formatting a symbolic number into a buffer does not fork per digit.
+func appendFormatted(fr *frame, dst value, s value) value {
+	return mkRopeBytes(ropeConcat(bytesAsStr(fr, dst), s))
+}
+
+func extAppendInt(fr *frame, args []value) value {
+	return appendFormatted(fr, args[0], extFormatInt(fr, args[1:]))
+}
+
+func extAppendFloat(fr *frame, args []value) value {
+	return appendFormatted(fr, args[0], extFormatFloat(fr, args[1:]))
+}
+
+func extAppendQuote(fr *frame, args []value) value {
+	return appendFormatted(fr, args[0], extQuote(fr, args[1:]))
+}
+
+func extAppendBool(fr *frame, args []value) value {
+	if b, ok := args[1].(bool); ok {
+		return appendFormatted(fr, args[0], strconv.FormatBool(b))
+	}
+	if fr.i.px.forkBool(fr.i.px.boolTerm(args[1])) {
+		return appendFormatted(fr, args[0], "true")
+	}
+	return appendFormatted(fr, args[0], "false")
 }
 
 func extItoa(fr *frame, args []value) value {
@@ -1103,6 +1168,9 @@ func extAtomicValueStore(fr *frame, args []value) value {
 	p := args[0].(*value)
 	fr.i.px.syncPoint(fr, nil)
 	(*p).(structure)[0] = args[1]
+	if fr.i.shared != nil {
+		fr.i.publish(&(*p).(structure)[0])
+	}
 	return nil
 }
 
@@ -1122,6 +1190,9 @@ func extAtomicStore(fr *frame, args []value) value {
 	}
 	fr.i.px.syncPoint(fr, nil)
 	*p = args[1]
+	if fr.i.shared != nil {
+		fr.i.publish(p)
+	}
 	return nil
 }
 
@@ -1148,6 +1219,9 @@ func extAtomicCAS(fr *frame, args []value) value {
 	}
 	if eq {
 		*p = args[2]
+		if fr.i.shared != nil {
+			fr.i.publish(p)
+		}
 		return true
 	}
 	return false
